@@ -450,3 +450,14 @@ Proof. intros cpos f m H. apply toks_eqb_eq. eapply layout_ok_toks. exact H. Qed
 Lemma mark_is_formatter : forall a,
   map fst (mark a) = print a /\ map fst (filter snd (mark a)) = print (norm a) /\ mark_consistent a = true.
 Proof. intros a. split; [apply mark_tokens|split; [apply mark_kept|apply mark_consistent_true]]. Qed.
+
+(* the text leg of [agrees]: inside the sub-language L0 a checked case's formatted text IS the text
+   the model of the Format methods and of the tabwriter writes *)
+Lemma case_text_sound : forall c a f,
+  agrees c = true -> c_ast c = Some a -> c_fsrc c = Some f -> c_fout c = OOk ->
+  c_cmts c = [] -> l0 (c_toks c) a = true -> f = ptext a.
+Proof.
+  intros c a f Ha Hast Hf Ho Hc Hl. unfold agrees in Ha.
+  apply andb_true_iff in Ha. destruct Ha as [_ Ht]. unfold text_agrees in Ht.
+  rewrite Hast, Hf, Ho, Hc, Hl in Ht. cbn in Ht. apply String.eqb_eq in Ht. symmetry. exact Ht.
+Qed.
